@@ -239,6 +239,25 @@ _more("C18", "Since round 5: the adaptive strain-path rule interpreted on three 
 _more("C19", "Since round 5: Behavior.__Flow interpreted with recording stand-ins on a material with a yield surface and a Maxwell branch: the Newton update ends with the projection __Bound, and the tangent is C - C.dudeps[eps_p] - sum g_i C.dudeps[eps_v_i] from the final Jacobian whether or not a point flows (R19.18); Compute_stress state threading (R19.16, R19.17).")
 _more("C20", "Since round 5: Mesh.Merge interpreted on three meshes around a shared corner (exact coincidence search and component labelling): coincide <=> same merged number, coordinates follow the mapping (R20.10); a single mesh mixing element types (R20.11, repaired F70).")
 
+_more("C01", "Since round 6: Get_invF is the point-wise inverse also on mirrored TRI6 / QUAD4 / TETRA4 (R1.12); the beam frame parity R10.1 is shared with this property.")
+_more("C02", "Since round 6: mirrored elements in the inverse-Jacobian rule (R2.12, 5 instances); assignment of a beam structure (R2.13); the thickness of 2-D meshes lying in space, planar and tilted (R2.10, repaired F78).")
+_more("C03", "Since round 6: one slot fed by THREE groups of three different sizes, the middle one absent, the last complex (R3.9, 30 instances); every case re-interpreted with the magnitudes written in the source (block / buffer sizes) scaled down to 3: what is assembled does not depend on such a constant; assembled matrices do not share the memoised pattern arrays (R3.12, repaired F71).")
+_more("C04", "Since round 6: a 3-D hinge leaves the listed rotations free (R4.13, repaired F75); connection dofs (R4.14); the convergence flag of the Krylov backends is read (R4.5, repaired F14b); bounds of the bounded solver are taken on the unknown dofs, also when cut by a symbolic size (R4.1).")
+_more("C05", "Since round 6: EVAL, the right-hand side and the corrector interpreted at states some of whose parts vanish (rest with an initial acceleration, released state ...) are the general expressions restricted to that state: no value-dependent shortcut (R5.15, 35 instances); the model's assembled vector F and the Neumann vector enter the right-hand side of every scheme with weight 1 (R5.16).")
+_more("C07", "Since round 6: _Simu.center is the mass-weighted centroid component by component (R7.12, repaired F77); Integrate_e of tensor fields (R7.13); the mesh centroid over all main groups (R7.14).")
+_more("C09", "Since round 6: the Euler-Bernoulli line load uses the frame of the MEMBER, not the geometric frame of the element (R9.7); a parameter is not read in a per-group loop before that loop rebinds it (R9.18).")
+_more("C10", "Since round 6: N, B and the shear-recovery operator of the four beam classes, interpreted with a symbolic frame block P, equal (operator of the aligned member) @ P in the plane and in space (R10.14, 48 instances); the active stress is the Kelvin-Mandel vector of tau T T^T (R10.15).")
+_more("C11", "Since round 6: Orthotropic / TransverselyIsotropic._Behavior interpreted at 50 exact parameter points accept the moduli iff the compliance is positive definite - 2 x 2 minors and determinant, stiff axis first, second or last (R11.13, repaired F79).")
+_more("C12", "Since round 6: transposes of rank-3 fields (R12.7); the direct and reflected operators of Field take their operands in the order written, on non-commuting symbolic operands (R12.10); two-output ufuncs, where= masks, the var / std methods (R12.7, repaired F72-F74).")
+_more("C13", "Since round 6: the 1-D coefficient table (R13.12) and the reflected operators (R13.13) are shared with this property; a load written as a linear form and the same load applied with add_volumeLoad are advanced the same way by every time scheme (R13.14); the thickness of a weak-form simulation follows the mesh dimension (R13.3, repaired F78).")
+_more("C14", "Since round 6: the observer entry point of every simulation class, interpreted from the all-up-to-date state: a model event (own model or another observed model object) leaves exactly the flags Need_Update() leaves (R14.25, 16 instances).")
+_more("C15", "Since round 6: Save_Iter -> Set_Iter round trip per scheme (R15.16, repaired F76); the phase-field history protocol interpreted beside a reference history - trial evaluations commit nothing, Save_Iter commits the last evaluation, Set_Iter(i, resetAll=True) rebuilds the history of iteration i (R15.17); no store to an attribute of X after pickle.dump(X) (R15.18).")
+_more("C16", "Since round 6: the beam operators internal forces are read with carry the frame block (R16.18); Hooke's law per point, sigma[e,p] = C[e(,p)] eps[e,p] and psi = 1/2 sigma.eps, for a constant, per-element and per-point stiffness with Ne == nPg (== d) (R16.19).")
+_more("C17", "Since round 6: the history protocol interpreted (R17.19, replaces the statement-shape parts of R17.5 which fired on np.maximum): the committed field never decreases, also when the mesh is moved between the solve and the commit; the irreversibility bounds reach the bounded solver on the unknown dofs (R17.20).")
+_more("C18", "Since round 6: _StrainPathState interpreted: C(s) = C_n + s (C_np1 - C_n) for numeric and symbolic s (R18.18); the four midpoint relations the discrete energy balance rests on (R18.19).")
+_more("C19", "Since round 6: Behavior.__Spectral interpreted with the callee recorded: sigma_y is the yield stress itself (below and above 1), trial stress, committed p, dt and the returned state as specified (R19.19); for 56 configurations, __Is_reducible() implies every slot of the constructor's layout is written by __Spectral (R19.20).")
+_more("C20", "Since round 6: Mesher.__Get_partitioned_groupElems INTERPRETED with gmsh answered from a table (R20.12, replaces the syntactic R20.3 / R20.5 / R20.6 which fired on equivalent rewrites): owned nodes disjoint and covering, one owner per element, ghosts == elements of other ranks touching an owned node (a mid-edge node whose end vertices belong to another rank included, lower ranks included), rows == own + ghost; Merge does not glue a sheet to its copy one unit above (R20.10).")
+
 # techniques as of DESIGN 7.8 (the deciding methods actually used)
 def _tech(pid, text):
     CHECKS[pid]["technique"] = text
